@@ -126,7 +126,8 @@ func tag(n, r int) string { return fmt.Sprintf("v%04d.%02d", n, r) }
 
 // write builds the file for a history. Fixed scaffolding (catalog, page tree,
 // one page) occupies numbers above the ones under test.
-func (h history) write(seed int64) ([]byte, map[string]int) {
+func (h history) write(seed int64) ([]byte, map[string]int, map[int]string) {
+	conts := map[int]string{}
 	r := rand.New(rand.NewSource(seed))
 	f := pdfw.NewFile("1.6", h.eol, false, r)
 	maxN := 0
@@ -259,9 +260,12 @@ func (h history) write(seed int64) ([]byte, map[string]int) {
 			}
 		}
 		f.WriteRevision(rv)
+		for cn, raw := range rv.OutObjStmData {
+			conts[cn] = string(raw)
+		}
 	}
 	info["next"] = next
-	return append([]byte{}, f.Bytes()...), info
+	return append([]byte{}, f.Bytes()...), info, conts
 }
 
 // tagOf extracts the unique tag from a looked-up object.
@@ -341,8 +345,18 @@ func sequences(h history, extra []int, r *rand.Rand) [][]op {
 type fail struct{ class, what string }
 
 func runHistory(c *fw.Ctx, id string, h history, seed int64) {
-	data, info := h.write(seed)
+	data, info, conts := h.write(seed)
 	m := h.model()
+	// the object-stream containers are objects of the file like any other: looking one
+	// up, before or after its members were read, gives the stream that was written
+	var contNums []int
+	for cn, raw := range conts {
+		if info["damaged"] == 0 {
+			m[cn] = raw
+			contNums = append(contNums, cn)
+		}
+	}
+	sort.Ints(contNums)
 	touched := map[int]int{}
 	delSeen, packedSeen := false, false
 	for _, rs := range h.revs {
@@ -382,7 +396,7 @@ func runHistory(c *fw.Ctx, id string, h history, seed int64) {
 	// numbers never defined: one below, one between, one beyond everything
 	never := []int{info["next"] + 3}
 	r := c.Rand("seq", id)
-	seqs := sequences(h, never, r)
+	seqs := sequences(h, append(never, contNums...), r)
 	c.Sample(map[string]any{"id": id, "history": h.String(), "bytes": len(data), "sequence": fmt.Sprint(seqs[2])})
 	var fails []fail
 	detail := map[string]any{"history": h.String(), "file_hex_len": len(data)}
@@ -480,6 +494,9 @@ func runHistory(c *fw.Ctx, id string, h history, seed int64) {
 				}
 				c.Count("lookups_checked", 1)
 				want, defined := m[o.n]
+				if _, isCont := conts[o.n]; isCont && defined {
+					c.Count("lookups_of_object_stream_containers", 1)
+				}
 				if h.chain && (o.kind == "deep" || o.kind == "rsv-deep" || o.kind == "rsv-RD") && defined && want != "" {
 					// a deep resolution follows /Next: whether it fails on a reference to an
 					// object that is free or was never defined, or reads it as null, is the
